@@ -41,7 +41,31 @@ def verify_contract(verifier, cls, prop=None, **kw):
         obs = [ob for ob in obs if prop in ob.serves]
     discharge_all(obs, **kw)
     return dict(status=status, error=err, obligations=obs, time=time.time() - t0,
-                stats=verifier.stats.get((cls.file, cls.qualname)))
+                stats=verifier.stats.get((cls.file, cls.qualname)),
+                precondition=precondition_witness(verifier.entry_pcs.get((cls.file, cls.qualname)), kw.get("workdir")))
+
+
+def precondition_witness(pcs, workdir=None):
+    """Vacuity guard: is the state right after `requires` (and the parameter shapes) satisfiable?
+    'none' (no requires) | 'sat' (a solver produced a model of one entry state) | 'unsat' (every entry state is
+    contradictory: the contract proves nothing) | 'unknown'."""
+    if pcs is None:
+        return "none"
+    if not pcs:
+        return "unsat"
+    verdicts = []
+    for pc in pcs[:4]:
+        r = solve.z3_check(pc, 5000, want_model=False, rlimit=400000)
+        if r.verdict == "unknown":
+            res = solve.cli_race(tm.smt_script(pc, produce_models=False), 10, workdir)
+            got = {v.verdict for v in res.values()} - {"unknown"}
+            v = got.pop() if len(got) == 1 else "unknown"
+        else:
+            v = r.verdict
+        if v == "sat":
+            return "sat"
+        verdicts.append(v)
+    return "unsat" if all(v == "unsat" for v in verdicts) and len(verdicts) == len(pcs) else "unknown"
 
 
 def discharge_all(obs, quick_ms=300, cli_timeout_s=20, all_solvers=False, seed=0, workdir=None, threads=3,
